@@ -58,6 +58,22 @@ T = {
  "C17b-2": ("C17", "the resolved shell is memoised per process", "two runs in one process with different shell_cmd values"),
  "C18b-1": ("C18", "scan results bump the total once per entry but already-known files are not scheduled", "a file known before the scan of its directory is processed (HasDeps before ScanDir, or file and directory both named)"),
  "C18b-2": ("C18", "run waits for the child before reading its pipes", "a command that prints more than 64 KiB"),
+ "C02c-1": ("C02", "make_abs skips canonicalize for absolute paths without `.`/`..`", "a symlinked directory, X named once by its real path and once through the link, and a depender reading X while the alias task has it truncated"),
+ "C02c-2": ("C02", "dependencies de-duplicated by spelling in the collector, counted unguarded in add_dependency", "one file naming the same dependency with two different spellings"),
+ "C03c-1": ("C03", "bounded result channel of 256 slots", "a failing run with more than 256 task results outstanding (several hundred files)"),
+ "C03c-2": ("C03", "std::path::absolute instead of canonicalize", "the same file reachable under two spellings (`..` or symlink) in one build"),
+ "C04c-1": ("C04", "write() instead of write_all() for the output", "Build, trailing newline off, a final directive result of >= 8 KiB and a size limit falling inside that chunk"),
+ "C04c-2": ("C04", "a command killed by a signal counts as success", "the shell of a run command dies from a signal"),
+ "C06c-1": ("C06", "verify compares the stored output as lossily decoded text", "a fresh output containing U+FFFD and a stored output where that character's lead byte is an invalid byte"),
+ "C06c-2": ("C06", "-N placed before a subcommand overrides its mode", "the real binary invoked as `txtpp -N verify`"),
+ "C08c-1": ("C08", "skip-if-same compares length and the first 8 KiB only", "a generated temp file or --needed output of more than 8 KiB and a leftover of the same length differing beyond offset 8192"),
+ "C08c-2": ("C08", "temp file rewritten in place without truncation", "a leftover temp file longer than the fresh content"),
+ "C09c-1": ("C09", "block-wise comparison drops the last partial 1 MiB block", "an output of more than 1 MiB already present with the same length, differing only in its tail"),
+ "C09c-2": ("C09", "a missing output is treated as empty in --needed mode", "--needed, empty fresh output, output file absent"),
+ "C10c-1": ("C10", "--needed stages the write in <stem>.tmp", "--needed, an output that has to change and a bystander named <output stem>.tmp"),
+ "C10c-2": ("C10", "-N placed before a subcommand overrides its mode", "the real binary invoked as `txtpp -N verify` or `txtpp -N clean`"),
+ "C18c-1": ("C18", "bounded result channel of 256 slots", "an error while more than 256 results are outstanding"),
+ "C18c-2": ("C18", "add_line compares char count but slices by byte length", "a multi-line-capable directive with a non-ASCII prefix followed by a short space-indented line"),
 }
 
 def main():
